@@ -1,3 +1,420 @@
 // Included into daemon/src/bmp.rs as `mod verif_harness` (guard: cfg osrg_rustybgp_verif).
+//
+// C19, BMP half: every BMP case of spec/MonitorRecord/MonitorRecord.tla is turned into the monitored event it stands for,
+// converted by the real converters of this module (adj_rib_in_to_bmp_update, adj_rib_out_to_bmp_update, loc_rib_to_bmp,
+// loc_rib_peer_up, flush_peer_snapshot, session_down_to_bmp), encoded by the real BmpCodec, and read back by an independent
+// structural reader (harness/common/monitor_reader.rs); embedded PDUs go through the repository's BGP parser.
+//
+//   VERIF_IN : one case per line (tab separated, see parse_case);  VERIF_OUT : {"i": n, "obs": {...}} per BMP case.
 #[allow(unused_imports)]
 use super::*;
+use std::io::{BufRead, Write as _};
+use tokio_util::codec::Encoder;
+
+include!(concat!(env!("OSRG_RUSTYBGP_VERIF_DIR"), "/../common/monitor_cases.rs"));
+
+const ROUTER_ID: Ipv4Addr = Ipv4Addr::new(192, 0, 2, 254);
+const LOCAL_ASN: u32 = 65001;
+
+fn panic_text(e: Box<dyn std::any::Any + Send>) -> String {
+    if let Some(s) = e.downcast_ref::<&str>() {
+        s.to_string()
+    } else if let Some(s) = e.downcast_ref::<String>() {
+        s.clone()
+    } else {
+        "panic".to_string()
+    }
+}
+
+fn open_msg(asn: u32, id: Ipv4Addr, caps: &str) -> bgp::Message {
+    let capability = match caps {
+        "nocaps" => vec![],
+        "caps" => vec![packet::Capability::MultiProtocol(Family::IPV4), packet::Capability::FourOctetAsNumber(asn), packet::Capability::RouteRefresh],
+        _ => {
+            let (l, _) = samples::capability_lists(&samples::families(), true, true, true, true);
+            l
+        }
+    };
+    bgp::Message::Open(bgp::Open { as_number: asn, holdtime: bgp::HoldTime::new(90).unwrap(), router_id: u32::from(id), capability })
+}
+
+struct Built {
+    msgs: Vec<bmp::Message>,
+    /// monitored content per message, for the comparison
+    fam: Family,
+    entries: Vec<packet::PathNlri>,
+    attrs: Arc<Vec<packet::Attribute>>,
+    nexthop: Option<bgp::Nexthop>,
+    opens: Vec<(u32, u32)>,
+    reason: u8,
+}
+
+fn build(c: &Case) -> Built {
+    let fam = mc_family(&c.fam);
+    let src = mc_source(&c.peer, &c.local);
+    let mut b = Built { msgs: vec![], fam, entries: vec![], attrs: Arc::new(vec![]), nexthop: None, opens: vec![], reason: 0 };
+    match c.k.as_str() {
+        "rm" => {
+            b.entries = mc_entries(fam, &c.count, c.addpath);
+            b.attrs = mc_attrs(&c.attrs);
+            b.nexthop = if c.dir == "reach" { mc_nexthop(fam, &c.nh) } else { None };
+            let reach = c.dir == "reach";
+            match c.view.as_str() {
+                "pre" | "post" => {
+                    let flags = if c.view == "post" { bmp::Message::PEER_FLAG_POST_POLICY } else { 0 };
+                    let change = AdjRibInChange {
+                        source: src.clone(),
+                        family: fam,
+                        addpath: c.addpath,
+                        nlris: b.entries.clone(),
+                        attrs: if c.dir == "unreach" { None } else { Some(b.attrs.clone()) },
+                        nexthop: b.nexthop,
+                        timestamp: 1_700_000_000,
+                    };
+                    if c.dir == "eor" {
+                        // the End-of-RIB marker closing a snapshot: the real flush_peer_snapshot, last message
+                        let mut snap: SnapshotMap = FnvHashMap::default();
+                        let mut ch = change;
+                        ch.attrs = Some(mc_attrs("small"));
+                        ch.nexthop = mc_nexthop(fam, "v4").or(ch.nexthop);
+                        apply_snapshot(&mut snap, ch);
+                        let hdr = bmp::PerPeerHeader::new(flags, src.remote_asn, Ipv4Addr::from(src.router_id), 0, src.remote_addr, 5);
+                        let mut v = flush_peer_snapshot(&mut snap, src.remote_addr, &hdr, flags);
+                        if let Some(last) = v.pop() {
+                            b.msgs.push(last);
+                        }
+                    } else {
+                        // live path (BmpClient::serve builds exactly this header around the real converter)
+                        let update = adj_rib_in_to_bmp_update(&change);
+                        b.msgs.push(bmp::Message::RouteMonitoring {
+                            header: bmp::PerPeerHeader::new(flags, src.remote_asn, Ipv4Addr::from(src.router_id), 0, src.remote_addr, change.timestamp),
+                            update,
+                            addpath: c.addpath,
+                        });
+                    }
+                }
+                "out_pre" | "out_post" => {
+                    let mut flags = bmp::Message::PEER_FLAG_ADJ_RIB_OUT;
+                    if c.view == "out_post" {
+                        flags |= bmp::Message::PEER_FLAG_POST_POLICY;
+                    }
+                    let change = AdjRibOutChange {
+                        peer_addr: src.remote_addr,
+                        peer_asn: src.remote_asn,
+                        peer_id: src.router_id,
+                        family: fam,
+                        addpath: c.addpath,
+                        nlri: b.entries[0].clone(),
+                        attrs: if reach { Some(b.attrs.clone()) } else { None },
+                        nexthop: b.nexthop,
+                        timestamp: 1_700_000_000,
+                    };
+                    let update = if c.dir == "eor" { bgp::Message::eor(fam) } else { adj_rib_out_to_bmp_update(&change) };
+                    b.msgs.push(bmp::Message::RouteMonitoring {
+                        header: bmp::PerPeerHeader::new(flags, change.peer_asn, Ipv4Addr::from(change.peer_id), 0, change.peer_addr, change.timestamp),
+                        update,
+                        addpath: c.addpath,
+                    });
+                }
+                _ => {
+                    let change = LocRibChange {
+                        family: fam,
+                        net: b.entries[0].nlri.clone(),
+                        attr: if reach { Some(b.attrs.clone()) } else { None },
+                        nexthop: b.nexthop,
+                        timestamp: 1_700_000_000,
+                    };
+                    if c.dir == "eor" {
+                        let hdr = bmp::PerPeerHeader::new(0, LOCAL_ASN, ROUTER_ID, 0, IpAddr::V4(Ipv4Addr::UNSPECIFIED), 0).with_peer_type(bmp::Message::PEER_TYPE_LOC_RIB);
+                        b.msgs.push(bmp::Message::RouteMonitoring { header: hdr, update: bgp::Message::eor(fam), addpath: false });
+                    } else {
+                        b.msgs.push(loc_rib_to_bmp(&change, ROUTER_ID, LOCAL_ASN));
+                    }
+                }
+            }
+        }
+        "peerup" => {
+            if c.x == "locrib" {
+                b.msgs.push(loc_rib_peer_up(ROUTER_ID, LOCAL_ASN));
+                b.opens = vec![(LOCAL_ASN, u32::from(ROUTER_ID)), (LOCAL_ASN, u32::from(ROUTER_ID))];
+            } else {
+                // a four-octet AS number in an OPEN needs the capability that carries it
+                let src = if c.x == "nocaps" {
+                    Arc::new(rustybgp_table::Source::new(src.remote_addr, src.local_addr, 65077, 65001, Ipv4Addr::from(src.router_id), rustybgp_table::PeerRole::Ebgp))
+                } else {
+                    src
+                };
+                let rid = Ipv4Addr::from(src.router_id);
+                b.msgs.push(bmp::Message::PeerUp {
+                    header: bmp::PerPeerHeader::new(0, src.remote_asn, rid, 0, src.remote_addr, 7),
+                    local_addr: mc_addr(&c.local, 254),
+                    local_port: 179,
+                    remote_port: 40000,
+                    local_open: open_msg(LOCAL_ASN, ROUTER_ID, &c.x),
+                    remote_open: open_msg(src.remote_asn, rid, &c.x),
+                });
+                b.opens = vec![(LOCAL_ASN, u32::from(ROUTER_ID)), (src.remote_asn, src.router_id)];
+            }
+        }
+        "peerdown" => {
+            let notif = bgp::Message::Notification(bgp::Notification::CeaseAdminShutdown);
+            let (reason, code) = match c.x.as_str() {
+                "localnotif" => (session_down_to_bmp(Some(crate::fsm::SessionDownReason::LocalNotification(notif))), 1),
+                "localfsm" => (session_down_to_bmp(Some(crate::fsm::SessionDownReason::HoldTimerExpired)), 2),
+                "remotenotif" => (session_down_to_bmp(Some(crate::fsm::SessionDownReason::RemoteNotification(notif))), 3),
+                "remoteunexpected" => (session_down_to_bmp(Some(crate::fsm::SessionDownReason::IoError)), 4),
+                _ => (bmp::PeerDownReason::Deconfigured, 5),
+            };
+            b.reason = code;
+            b.msgs.push(bmp::Message::PeerDown {
+                header: bmp::PerPeerHeader::new(0, src.remote_asn, Ipv4Addr::from(src.router_id), 0, src.remote_addr, 9),
+                reason,
+            });
+        }
+        "initiation" => {
+            let tlvs = match c.x.as_str() {
+                "none" => vec![],
+                "long" => vec![(bmp::Message::INFO_TYPE_SYSDESCR, vec![b'x'; 3000]), (bmp::Message::INFO_TYPE_SYSNAME, b"r1".to_vec())],
+                _ => vec![(bmp::Message::INFO_TYPE_SYSDESCR, b"RustyBGP".to_vec()), (bmp::Message::INFO_TYPE_SYSNAME, b"r1".to_vec())],
+            };
+            b.msgs.push(bmp::Message::Initiation(tlvs));
+        }
+        x => panic!("harness: kind {x}"),
+    }
+    b
+}
+
+fn observe(c: &Case) -> reader::Obs {
+    let built = match catch_unwind(AssertUnwindSafe(|| build(c))) {
+        Ok(b) => b,
+        Err(e) => return reader::Obs::failed("panic", &format!("converter: {}", panic_text(e))),
+    };
+    let mut codec = bmp::BmpCodec::new();
+    let mut bufs: Vec<Vec<u8>> = Vec::new();
+    for m in &built.msgs {
+        let mut buf = bytes::BytesMut::new();
+        match catch_unwind(AssertUnwindSafe(|| codec.encode(m, &mut buf))) {
+            Err(e) => return reader::Obs::failed("panic", &format!("BmpCodec::encode: {}", panic_text(e))),
+            Ok(Err(e)) => return reader::Obs::failed("error", &format!("{e:?}")),
+            Ok(Ok(())) => {
+                // one monitored event may take several BMP messages: walk them by their length fields; they have to tile
+                // what was written exactly
+                let raw = buf.to_vec();
+                let mut off = 0usize;
+                while off < raw.len() {
+                    let len = if raw.len() - off >= 6 { u32::from_be_bytes([raw[off + 1], raw[off + 2], raw[off + 3], raw[off + 4]]) as usize } else { 0 };
+                    if len < 6 || off + len > raw.len() {
+                        bufs.push(raw[off..].to_vec()); // the reader reports the inconsistent length
+                        break;
+                    }
+                    bufs.push(raw[off..off + len].to_vec());
+                    off += len;
+                }
+            }
+        }
+    }
+    let mut o = reader::Obs::new();
+    o.nrec = bufs.len();
+    let mut all_pdus: Vec<Vec<u8>> = Vec::new();
+    let mut v_all = true;
+    let mut v_any = false;
+    let mut l_all = true;
+    let mut l_any = false;
+    let mut o_all = true;
+    let mut o_any = false;
+    for raw in &bufs {
+        let r = match reader::read_bmp(raw) {
+            Ok(r) => r,
+            Err(e) => {
+                if e.starts_with("LENGTH") {
+                    o.lenok = false;
+                } else {
+                    o.parse = format!("error: {e}");
+                }
+                o.note = e;
+                continue;
+            }
+        };
+        reader::Obs::merge_i(&mut o.typ, r.typ as i64);
+        if matches!(r.typ, 0 | 2 | 3) {
+            reader::Obs::merge_i(&mut o.peertype, r.peer_type as i64);
+            let v = r.flags & 0x80 != 0;
+            v_all &= v;
+            v_any |= v;
+            l_all &= r.flags & 0x40 != 0;
+            l_any |= r.flags & 0x40 != 0;
+            o_all &= r.flags & 0x10 != 0;
+            o_any |= r.flags & 0x10 != 0;
+            // RFC 7854 4.2: an IPv4 address sits in the last four octets, the first twelve are zero
+            let v4_shape = r.addr[..12].iter().all(|x| *x == 0);
+            let want: [u8; 16] = if r.peer_type == 3 {
+                [0; 16]
+            } else {
+                match mc_addr(&c.peer, 77) {
+                    IpAddr::V4(a) => {
+                        let mut x = [0u8; 16];
+                        x[12..].copy_from_slice(&a.octets());
+                        x
+                    }
+                    IpAddr::V6(a) => a.octets(),
+                }
+            };
+            if (v && v4_shape && r.peer_type != 3) || (!v && !v4_shape) || r.addr != want {
+                o.addrok = false;
+            }
+        }
+        match r.typ {
+            0 => {
+                let (pdus, left) = reader::split_pdus(&r.body);
+                o.minpdus = o.minpdus.min(pdus.len());
+                o.maxpdus = o.maxpdus.max(pdus.len());
+                o.leftover |= left;
+                all_pdus.extend(pdus);
+            }
+            3 => {
+                // local address (16), local port, remote port, sent OPEN, received OPEN, information TLVs
+                if r.body.len() < 20 {
+                    o.parse = "error: peer up body truncated".into();
+                    continue;
+                }
+                let la = &r.body[..16];
+                let want = match if r.peer_type == 3 { IpAddr::V4(Ipv4Addr::UNSPECIFIED) } else { mc_addr(&c.local, 254) } {
+                    IpAddr::V4(a) => {
+                        let mut x = [0u8; 16];
+                        x[12..].copy_from_slice(&a.octets());
+                        x
+                    }
+                    IpAddr::V6(a) => a.octets(),
+                };
+                if la != want {
+                    o.content = "diff: local address".into();
+                }
+                // take exactly two PDUs, the rest must be information TLVs
+                let (pdus, _) = reader::split_pdus(&r.body[20..]);
+                let used: usize = pdus.iter().take(2).map(|p| p.len()).sum();
+                let rest = &r.body[20 + used..];
+                let mut off = 0;
+                let mut tlv_ok = true;
+                while off < rest.len() {
+                    if off + 4 > rest.len() {
+                        tlv_ok = false;
+                        break;
+                    }
+                    let l = u16::from_be_bytes([rest[off + 2], rest[off + 3]]) as usize;
+                    if off + 4 + l > rest.len() {
+                        tlv_ok = false;
+                        break;
+                    }
+                    off += 4 + l;
+                }
+                let n = pdus.len().min(2) + if pdus.len() > 2 { pdus.len() - 2 } else { 0 };
+                o.minpdus = o.minpdus.min(n);
+                o.maxpdus = o.maxpdus.max(n);
+                o.leftover |= !tlv_ok && pdus.len() <= 2;
+                if pdus.iter().any(|p| p[18] != 1) {
+                    o.parse = "error: a Peer Up PDU is not an OPEN".into();
+                }
+                all_pdus.extend(pdus.into_iter().take(2));
+            }
+            2 => {
+                if r.body.is_empty() {
+                    o.parse = "error: peer down without a reason".into();
+                    continue;
+                }
+                let reason = r.body[0];
+                let data = &r.body[1..];
+                let ok = match reason {
+                    1 | 3 => {
+                        let (pdus, left) = reader::split_pdus(data);
+                        let good = pdus.len() == 1 && !left && pdus[0][18] == 3;
+                        all_pdus.extend(pdus);
+                        good
+                    }
+                    2 => data.len() == 2,
+                    4 | 5 => data.is_empty(),
+                    _ => false,
+                };
+                if !ok {
+                    o.parse = format!("error: peer down reason {reason} with {} data bytes", data.len());
+                }
+                if reason != built.reason {
+                    o.content = format!("diff: reason {} expected, {} found", built.reason, reason);
+                }
+            }
+            4 => {
+                let mut off = 0;
+                let mut n = 0;
+                while off < r.body.len() {
+                    if off + 4 > r.body.len() {
+                        o.parse = "error: initiation TLV header truncated".into();
+                        break;
+                    }
+                    let l = u16::from_be_bytes([r.body[off + 2], r.body[off + 3]]) as usize;
+                    if off + 4 + l > r.body.len() {
+                        o.parse = "error: initiation TLV overruns".into();
+                        break;
+                    }
+                    off += 4 + l;
+                    n += 1;
+                }
+                let want = match c.x.as_str() {
+                    "none" => 0,
+                    _ => 2,
+                };
+                if n != want {
+                    o.content = format!("diff: {want} TLVs expected, {n} found");
+                }
+            }
+            _ => {}
+        }
+    }
+    o.v = v_all && v_any;
+    if v_any != v_all {
+        o.addrok = false;
+    }
+    o.l = l_all && l_any;
+    o.o = o_all && o_any;
+    if (l_any != l_all) || (o_any != o_all) {
+        o.l = !l_all; // mixed flags across the records of one event: force a mismatch
+    }
+    if o.parse == "ok" && !all_pdus.is_empty() {
+        match mc_decode(&all_pdus, c.addpath) {
+            Err(e) => o.parse = format!("error: {e}"),
+            Ok(d) => {
+                if c.k == "rm" {
+                    let cmp = mc_compare(&d, &c.dir, built.fam, &built.entries, &built.attrs, built.nexthop);
+                    if o.content == "same" {
+                        o.content = cmp;
+                    }
+                } else if c.k == "peerup" {
+                    let got: Vec<(u32, u32)> = d.opens.iter().map(|x| (x.0, x.1)).collect();
+                    if got != built.opens && o.content == "same" {
+                        o.content = format!("diff: OPENs (asn, id) {:?} expected in the order sent, received; found {:?}", built.opens, got);
+                    }
+                } else if c.k == "peerdown" && d.notifications != 1 {
+                    o.parse = "error: the peer down data is not a NOTIFICATION".into();
+                }
+            }
+        }
+    }
+    o
+}
+
+#[test]
+fn c19_bmp_records() {
+    let inp = std::env::var("VERIF_IN").expect("VERIF_IN");
+    let outp = std::env::var("VERIF_OUT").expect("VERIF_OUT");
+    let mut out = std::io::BufWriter::new(std::fs::File::create(outp).unwrap());
+    let hook = std::panic::take_hook();
+    std::panic::set_hook(Box::new(|_| {}));
+    for line in std::io::BufReader::new(std::fs::File::open(inp).unwrap()).lines() {
+        let line = line.unwrap();
+        let Some(c) = parse_case(&line) else { continue };
+        if !matches!(c.k.as_str(), "rm" | "peerup" | "peerdown" | "initiation") || c.x == "established" {
+            continue;
+        }
+        let o = observe(&c);
+        writeln!(out, "{{\"i\":{},\"obs\":{}}}", c.i, o.to_json()).unwrap();
+    }
+    std::panic::set_hook(hook);
+}
